@@ -215,9 +215,9 @@ def build_argv(opts, config_arg, input_arg):
         argv += ["-m", opts["method"]]
     if opts.get("lang"):
         argv += ["-g", opts["lang"]]
-    if opts.get("from"):
-        argv += ["-f", opts["from"]]
-    if opts.get("to"):
+    if opts.get("from") is not None:
+        argv += ["-f", opts["from"]]  # an empty string is passed as an (invalid) empty value, not dropped
+    if opts.get("to") is not None:
         argv += ["-t", opts["to"]]
     if opts.get("neg"):
         argv += ["-n"]
@@ -264,12 +264,14 @@ def host_env(host, opts, w):
         env["COLUMNS"] = host["columns"]
         env["LINES"] = "24"
         env["TERM"] = "xterm-256color"
+    for k, v in (host.get("extra_env") or {}).items():
+        env[k] = v.replace("$HOME", w.home).replace("$TMP", w.tmp).replace("$CWD", w.work)
     for k, v in (opts.get("env") or {}).items():
         env[k] = v
     return env
 
 
-def run(w, world_files, opts, host=None, faults=None, crash_at=None, dump=False, record_imports=False,
+def run(w, world_files, opts, host=None, faults=None, crash_at=None, interrupt_at=None, dump=False, record_imports=False,
         keep_content=False, walk_packages=False, src=None, strace=False):
     """Execute one simulated run inside World w.
 
@@ -322,6 +324,7 @@ def run(w, world_files, opts, host=None, faults=None, crash_at=None, dump=False,
         "layout": layout,
         "faults": faults or [],
         "crash_at": crash_at,
+        "interrupt_at": interrupt_at,
         "dump": dump,
         "record_imports": record_imports,
         "walk_packages": walk_packages,
